@@ -376,10 +376,10 @@ func c08Counts(tier string) int64 {
 func init() {
 	Register(&Prop{
 		ID:   "C08",
-		Rule: "workspaces of 1-3 journals from G (non-ASCII and non-BMP text in descriptions, accounts, comments and commodities; status/code/date2/wide separators before the payee; adjacent entries without blank line) with and without workspace root; every file is opened; for EVERY cursor position of every line (UTF-16, code-point boundaries, end of line included): hover, prepareRename, references, rename, definition, completion, inlineCompletion; per document: published diagnostics, documentSymbol, foldingRange, documentLink; workspace/symbol. Generic validator against the text of the document the URI names (line/character bounds in UTF-16, start<=end, no split surrogate pair); target validator from the lexeme table (hover/prepareRename range = span of the lexeme under the cursor; reference/rename/workspace-symbol/link/undeclared-commodity ranges = span of an occurrence of that symbol on that line); structure validator (folds as inclusive line intervals, outline symbols as half-open ranges: disjoint or nested). Non-trivial = workspace with >=1 non-ASCII line and >=10 cursor positions; distinct by workspace text hash.",
+		Rule: "workspaces of 1-3 journals from G (non-ASCII and non-BMP text in descriptions, accounts, comments and commodities; status/code/date2/wide separators before the payee; adjacent entries without blank line) with and without workspace root; every file is opened; for EVERY cursor position of every line (UTF-16, code-point boundaries, end of line included): hover, prepareRename, references, rename, definition, completion, inlineCompletion; per document: published diagnostics, documentSymbol, foldingRange, documentLink; workspace/symbol. Generic validator against the text of the document the URI names (line/character bounds in UTF-16, start<=end, no split surrogate pair); target validator from the lexeme table (hover/prepareRename range = span of the lexeme under the cursor; reference/rename/workspace-symbol/link/undeclared-commodity ranges = span of an occurrence of that symbol on that line); structure validator (folds as inclusive line intervals, outline symbols as half-open ranges: disjoint or nested). The first cases force combinations of a non-ASCII feature with tags (incl. date tags, whose diagnostics carry ranges) in header/posting/transaction comments, costs, assertions, codes on a plain background. Non-trivial = workspace with >=1 non-ASCII line and >=10 cursor positions; distinct by workspace text hash.",
 		Notes: []string{"where a transaction's fold or outline range should end is not judged beyond the no-partial-overlap rule", "definition targets (whole directive / whole transaction) are judged by the generic validator only"},
-		Cases:       c08Counts,
-		MustObserve: []string{"workspaces", "cursor_positions", "ranges_checked"},
+		Cases:       func(tier string) int64 { return c08Counts(tier) + int64(len(c08Forced())*c08ForcedReps) },
+		MustObserve: []string{"workspaces", "cursor_positions", "ranges_checked", "forced_combination_cases"},
 		Setup:       func(c *Ctx) { c.State = &c08State{bad: c.Known.BadFeatureSets("C03", "C08")} },
 		RunCase:     runC08,
 	})
@@ -412,11 +412,54 @@ func c08Run(c *Ctx, dir string, w *WS, r *RNG, allPositions bool) *c08Fail {
 	return x.checkWorkspaceSymbols()
 }
 
+// c08Forced: feature combinations that put non-ASCII text in front of position-carrying lexemes
+// (tags in header/posting/transaction comments incl. date tags whose diagnostics carry ranges,
+// costs, assertions, codes), forced on a plain background.
+func c08Forced() [][]string {
+	var out [][]string
+	nonASCII := []string{"desc.bmp", "desc.nonbmp", "acct.bmp", "acct.nonbmp", "acct.nonbmp-letter", "cmdty.bmp-right"}
+	cpos := map[string]string{"hcmt": "has.hcomment", "pcmt": "has.pcomment", "tcmt": "has.txcomment"}
+	for _, na := range nonASCII {
+		for _, p := range []string{"hcmt", "pcmt", "tcmt"} {
+			for _, tk := range []string{"", "tag.date-empty", "tag.date-invalid", "tag.date", "tag.bmp-value", "tag.empty"} {
+				fs := []string{na, cpos[p], p + ".tags"}
+				if tk != "" {
+					fs = append(fs, tk)
+				}
+				out = append(out, fs)
+			}
+			out = append(out, []string{na, cpos[p], p + ".free-tags"}, []string{na, cpos[p], p + ".nonbmp"})
+		}
+		for _, o := range [][]string{{"has.cost"}, {"has.assert"}, {"code.plain"}, {"hdr.date2"}, {"hdr.payee-note"}, {"status.star", "code.plain", "hdr.date2"}, {"cmdty.quoted-right"}, {"cmdty.sym-left", "sign.precomm"}} {
+			out = append(out, append([]string{na}, o...))
+		}
+	}
+	return out
+}
+
+const c08ForcedReps = 3
+
 func runC08(c *Ctx, idx int64) {
 	st := c.State.(*c08State)
 	r := c.RNG(idx, 0)
-	nf := Pick(r, []int{1, 1, 2, 3})
-	w := genWorkspace(r, st.bad, WSOpt{Files: nf, Entries: [2]int{1, 4}, Shape: "random"})
+	forced := c08Forced()
+	var w *WS
+	if int(idx) < len(forced)*c08ForcedReps {
+		fs := forced[int(idx)/c08ForcedReps]
+		if isBadSet(st.bad, fs) {
+			return
+		}
+		j, ok := ForcedJournal(r, st.bad, fs, idx%2 == 1)
+		if !ok {
+			c.Count("forced_unrealised", 1)
+			return
+		}
+		c.Count("forced_combination_cases", 1)
+		w = singleFileWS(j)
+	} else {
+		nf := Pick(r, []int{1, 1, 2, 3})
+		w = genWorkspace(r, st.bad, WSOpt{Files: nf, Entries: [2]int{1, 4}, Shape: "random"})
+	}
 	w.Root = r.Chance(1, 3)
 	dir := filepath.Join(c.Dir, fmt.Sprintf("w%d", idx))
 	c.Count("workspaces", 1)
